@@ -1,6 +1,8 @@
 package types
 
 import (
+	"sync"
+
 	verif "github.com/zishang520/engine.io/v2/internal/zzverif"
 )
 
@@ -187,4 +189,38 @@ func VerifH_C20_emitter_reentrant() {
 			verif.Assert(c20Log[i] == order[i], "registration order")
 		}
 	}
+}
+
+// A Once listener runs at most once overall even when two goroutines emit concurrently
+// (symbolically: up to 2 preemptions at atomic operations of the emitting goroutines;
+// natively: stress).
+func VerifH_C20_once_concurrent_emit() {
+	if !verif.Symbolic() {
+		for round := 0; round < 2000; round++ {
+			e := NewEventEmitter()
+			var mu sync.Mutex
+			n := 0
+			e.Once("x", func(...any) { mu.Lock(); n++; mu.Unlock() })
+			var wg sync.WaitGroup
+			wg.Add(2)
+			go func() { defer wg.Done(); e.Emit("x") }()
+			go func() { defer wg.Done(); e.Emit("x") }()
+			wg.Wait()
+			if n > 1 {
+				verif.Assert(false, "a Once listener runs at most once overall")
+				return
+			}
+		}
+		return
+	}
+	e := NewEventEmitter()
+	n := 0
+	e.Once("x", func(...any) { n++ })
+	verif.PreemptBudget(2)
+	go func() { e.Emit("x") }()
+	go func() { e.Emit("x") }()
+	verif.Settle()
+	verif.PreemptBudget(0)
+	verif.Assert(n <= 1, "a Once listener runs at most once overall")
+	verif.Assert(n == 1, "and it does run")
 }
